@@ -503,6 +503,11 @@ func scripts(depth int, ids int) [][]item {
 		alpha = append(alpha, item{Kind: "pub", ID: packet.ID(id), QoS: 2}, item{Kind: "rel", ID: packet.ID(id)})
 	}
 	alpha = append(alpha, item{Kind: "pub", ID: 1, QoS: 2, Dup: true}, item{Kind: "pub", ID: 1, QoS: 1}, item{Kind: "pub", QoS: 0}, item{Kind: "drop"})
+	return scriptsOver(alpha, depth)
+}
+
+// scriptsOver enumerates all scripts up to depth over an alphabet and numbers the messages.
+func scriptsOver(alpha []item, depth int) [][]item {
 	var out [][]item
 	var rec func(cur []item)
 	rec = func(cur []item) {
@@ -550,7 +555,7 @@ func interesting(sc []item) bool {
 func TestCheck(t *testing.T) {
 	r := h.New("C10", "fault_enumeration")
 	depth := r.Pick(3, 4)
-	r.Rule(fmt.Sprintf("all scripted-broker scripts of length <= %d over {PUBLISH q2(id 1,2), PUBLISH q2(1,dup), PUBLISH q1(1), PUBLISH q0, PUBREL(1,2), drop+resume} (plus sampled longer ones with 3 ids in thorough) x callback plans {all nil, error at the 1st / 2nd / 3rd application callback} x both callback timing modes, each first run without faults and then with every single client-side send fault (k-th Send of each connection, before/after: i.e. at every acknowledgement the client writes); a QoS 0 marker through the client's single processor fences every step; a completion phase retransmits PUBREL for every PUBREC without PUBCOMP. Oracle: model driven by what the client received (event log), callback invocations, acknowledgements written. Non-trivial = scripts with a complete or interrupted QoS 2 handshake; distinct by (script, plan, mode, fault)", depth))
+	r.Rule(fmt.Sprintf("all scripted-broker scripts of length <= %d over {PUBLISH q2(id 1,2), PUBLISH q2(1,dup), PUBLISH q1(1), PUBLISH q0, PUBREL(1,2), drop+resume} (plus sampled longer ones with 3 ids in thorough) and all scripts of length <= 3 over {PUBLISH q1(1), PUBLISH q1(1,dup), PUBLISH q1(2,dup), drop+resume} x callback plans {all nil, error at the 1st / 2nd / 3rd application callback} x both callback timing modes, each first run without faults and then with every single client-side send fault (k-th Send of each connection, before/after: i.e. at every acknowledgement the client writes); a QoS 0 marker through the client's single processor fences every step; a completion phase retransmits PUBREL for every PUBREC without PUBCOMP. Oracle: model driven by what the client received (event log), callback invocations, acknowledgements written. Non-trivial = scripts with a complete or interrupted QoS 2 handshake; distinct by (script, plan, mode, fault)", depth))
 	r.Assume("exactly-once is asserted in the default callback mode only (announce-on-publish documents redelivery); deliveries the application rejects are not counted")
 	all := scripts(depth, 2)
 	rng := r.Rand("c10")
@@ -567,6 +572,14 @@ func TestCheck(t *testing.T) {
 			if i%3 == 0 {
 				base = append(base, scenario{Script: s, Plan: plan, Early: true})
 			}
+		}
+	}
+	// QoS 1 redeliveries: the dup flag must change nothing (callback first, PUBACK
+	// only if accepted)
+	q1 := scriptsOver([]item{{Kind: "pub", ID: 1, QoS: 1}, {Kind: "pub", ID: 1, QoS: 1, Dup: true}, {Kind: "pub", ID: 2, QoS: 1, Dup: true}, {Kind: "drop"}}, 3)
+	for i, s := range q1 {
+		for _, plan := range []string{"", "e", "ne", "nne"} {
+			base = append(base, scenario{Script: s, Plan: plan, Early: (i+len(plan))%3 == 0})
 		}
 	}
 	if !r.Quick() {
